@@ -397,6 +397,10 @@ def fold_predicates(ck: Checker, rule='C12.FOLD', real_iterator=True):
     it = Interp(repo, overrides={} if real_iterator else {FIXED_SUM: fixed_sum}, max_steps=3_000_000)
     if real_iterator:
         it.eager_generators.add(FIXED_SUM)
+    from ..rewrites import FakeGate
+    from ..tables import Denotations, GateTypeVal, gate_overrides
+    _types = {t.var: t for t in gate_overrides(Denotations(repo)).values() if isinstance(t, GateTypeVal)}
+    INPUT_T, OTHER_T = _types['INPUT'], _types['AND']
     tm, pm, cm = repo.mod(TT), repo.mod(PF), repo.mod(CIRCUIT)
     TTc = RepoClass(tm, tm.cls('TruthTable'))
     PFc = RepoClass(pm, pm.cls('PyFunction'))
@@ -413,8 +417,24 @@ def fold_predicates(ck: Checker, rule='C12.FOLD', real_iterator=True):
         if kind == 'PyFunction':
             return it.instantiate(PFc, (f,), {'input_size': n}), pm
         inst = Instance(CCc)
-        inst._inputs = [f'i{k}' for k in range(n)]
-        inst._outputs = [f'o{k}' for k in range(m)]
+        ins = [f'i{k}' for k in range(n)]
+        inst._inputs = ins
+        # a structure realising the function: an output that is a projection is the input gate itself (an input that is
+        # an output and feeds nothing), every other output a gate over all inputs; evaluation itself is C01/C15's subject
+        outs, gates, users = [], {l: FakeGate(l, INPUT_T, ()) for l in ins}, {}
+        for j in range(m):
+            proj = [i for i in range(n) if all(T[j][t] == bool((t >> (n - 1 - i)) & 1) for t in range(1 << n))]
+            if proj:
+                outs.append(f'i{proj[0]}')
+            else:
+                outs.append(f'o{j}')
+                gates[f'o{j}'] = FakeGate(f'o{j}', OTHER_T, tuple(ins))
+                for l in ins:
+                    users.setdefault(l, []).append(f'o{j}')
+        inst._outputs = outs
+        inst._gates = gates
+        inst._gate_to_users = users
+        inst._blocks = {}
         inst.evaluate = lambda inputs: list(f(inputs))
         inst.evaluate_at = lambda inputs, output_index: f(inputs)[output_index]
         return inst, cm
